@@ -366,10 +366,8 @@ class C15:
             return '%s:%s' % (f[0], '.'.join(str(k) for k in all_paths()[f[1]] if not isinstance(k, int)))
         return case[0]
 
-    def finish(self, ctx):
-        """conformance with the real CLI: one case per outcome class and every k-th"""
-        seed = ctx['seed']
-        self.init_worker()
+    def conformance_picks(self, seed):
+        """conformance with the real CLI: some cases of every kind and every k-th"""
         picks = []
         perkind = {}
         k = 97 + seed % 31
@@ -379,29 +377,40 @@ class C15:
                 perkind[kind] = perkind.get(kind, 0) + 1
                 if answer_bytes(case) is not None:
                     picks.append(case)
-        picks = picks[:45]
+        return picks[:45]
+
+    def finish(self, ctx):
+        self.init_worker()
+        n = 0
+        viol = []
+        for case in self.conformance_picks(ctx['seed']):
+            k, vs = self.conformance_one(case)
+            n += k
+            viol += [(case, v) for v in vs]
+        return {'conformance_replays': n, 'viol': viol}
+
+    def conformance_one(self, case):
+        d = os.path.join(core.scratch_dir(), 'cli15')
+        ans = answer_bytes(case)
+        second = 3 if case[0] == 'nest' else case[0] == 'end'
         viol = []
         n = 0
-        d = os.path.join(core.scratch_dir(), 'cli15')
-        for case in picks:
-            ans = answer_bytes(case)
-            second = 3 if case[0] == 'nest' else case[0] == 'end'
-            for mode in ('plain', 'html', 'json'):
-                out, err, code, exc = self.run_mode(mode, ans, second)
-                rc, cout, cerr, args = shell.run_cli(['--language', 'en-GB', '--output', mode] + (['--context', '0', 'h.tex'] if second == 3 else ['g.tex' if second else 'f.tex']),
-                                                     {'f.tex': TEX, 'g.tex': TEX2, 'h.tex': TEX3}, {}, ans, d)
-                n += 1
-                if exc:
-                    same = 'Traceback' in cerr and rc == 1
-                elif code is not None:
-                    same = rc == code and 'Traceback' not in cerr
-                else:
-                    same = rc == 0 and cout.decode('utf-8', 'replace') == out
-                if not same:
-                    viol.append((case, {'clause': 'in-process outcome equals the outcome of the CLI (conformance)', 'sig': 'C15:conformance:' + mode,
-                                        'detail': {'answer': ans[:600].decode('utf-8', 'replace'), 'in_process': [str(out)[:300], code, exc],
-                                                   'cli': [rc, cout.decode('utf-8', 'replace')[:300], cerr[-300:]]}}))
-        return {'conformance_replays': n, 'viol': viol}
+        for mode in ('plain', 'html', 'json'):
+            out, err, code, exc = self.run_mode(mode, ans, second)
+            rc, cout, cerr, args = shell.run_cli(['--language', 'en-GB', '--output', mode] + (['--context', '0', 'h.tex'] if second == 3 else ['g.tex' if second else 'f.tex']),
+                                                 {'f.tex': TEX, 'g.tex': TEX2, 'h.tex': TEX3}, {}, ans, d)
+            n += 1
+            if exc:
+                same = 'Traceback' in cerr and rc == 1
+            elif code is not None:
+                same = rc == code and 'Traceback' not in cerr
+            else:
+                same = rc == 0 and cout.decode('utf-8', 'replace') == out
+            if not same:
+                viol.append({'clause': 'in-process outcome equals the outcome of the CLI (conformance)', 'sig': 'C15:conformance:' + mode,
+                             'detail': {'answer': ans[:600].decode('utf-8', 'replace'), 'in_process': [str(out)[:300], code, exc],
+                                        'cli': [rc, cout.decode('utf-8', 'replace')[:300], cerr[-300:]]}})
+        return n, viol
 
     def explain(self, case):
         a = answer_bytes(case)
